@@ -330,4 +330,4 @@ ENGINES = [
          kind_free_text="rapid state machine for nodetable and NodeList against map/slice models"),
 ]
 
-HOOK_COMMITS = ["68a99b4", "f22678a"]
+HOOK_COMMITS = ["68a99b4", "f22678a", "4a2a6f1"]
